@@ -8,7 +8,24 @@
 
 using namespace pmc;
 
+// sanitizer reports of isolated children are kept short (no symbolization: a report costs ~0.2 s otherwise and
+// configurations hit by a crash defect die often); replay a case with ASAN_OPTIONS=symbolize=1 to get file:line
+extern "C" const char* __asan_default_options() { return "symbolize=0:fast_unwind_on_fatal=1"; }
+extern "C" const char* __ubsan_default_options() { return "symbolize=0"; }
+
 static bool g_tail = true;  // R-only matrices: after the barcode, remove_last until empty, comparing after each
+static std::string g_cls_suffix;  // appended to every class of a history that calls remove_last on an empty matrix
+
+enum Counter {
+  EV_TRACES, EV_TRANSITIONS, EV_EVALUATIONS, EV_NONTRIVIAL, MISMATCHES, NV_ESSENTIAL, NV_FINITE, NV_CHANGED, NV_REMHIST,
+  NV_OFFDIAG, NV_TAIL, NV_NONUNIT, NV_CHAINMULTI, NV_EMPTYREM, CASES_FIRST  // + flavour * 2 + (zp ? 1 : 0)
+};
+static const char* counter_names[] = {
+  "ev.traces", "ev.transitions", "ev.evaluations", "ev.nontrivial", "mismatches_total", "nv.bars_essential", "nv.bars_finite",
+  "nv.columns_changed_by_reduction", "nv.histories_with_remove_last", "nv.ru_cases_with_offdiagonal_factor",
+  "nv.tail_remove_last_after_barcode", "nv.zp_non_unit_coefficient", "nv.chain_columns_with_several_cells",
+  "nv.histories_with_remove_last_on_empty_matrix",
+  "cases.boundary.z2", "cases.boundary.zp", "cases.ru.z2", "cases.ru.zp", "cases.chain.z2", "cases.chain.zp"};
 
 template <class O>
 struct Check {
@@ -19,7 +36,11 @@ struct Check {
   std::string fl = fl_name(O::flavour);
   long long comparisons = 0;
 
-  void bad(const std::string& cls, const std::string& detail) { vf::mismatch("C05:" + cls, cfg + " " + detail); }
+  void bad(const std::string& cls, const std::string& detail) {
+    std::string full = "C05:" + cls + g_cls_suffix;
+    cnt(MISMATCHES)++;
+    if (class_should_print(full)) vf::mismatch(full, cfg + " " + detail);
+  }
   template <class A, class B>
   bool eq(const A& got, const B& want, const std::string& cls, const std::string& what) {
     ++comparisons;
@@ -47,7 +68,7 @@ struct Check {
       auto want = oracle_pairs(ex.mod);
       ++comparisons;
       if (!(got == want)) bad("barcode:" + fl + stage, "got " + pairs_str(got) + " want " + pairs_str(want));
-      for (auto& q : want) vf::stats().add(q.death < 0 ? "nv.bars_essential" : "nv.bars_finite");
+      for (auto& q : want) cnt(q.death < 0 ? NV_ESSENTIAL : NV_FINITE)++;
     }
   }
 
@@ -125,7 +146,7 @@ struct Check {
       bool ok = in_span(upto, R[j], md.p) && (is_zero(R[j]) || !in_span(before, R[j], md.p));
       if (!ok) bad("R_not_column_equivalent_to_boundary:" + fl + stage,
                    "position " + std::to_string(j) + " R column " + vstr(R[j]) + " boundary " + vstr(B[j]));
-      if (!(R[j] == B[j])) vf::stats().add("nv.columns_changed_by_reduction");
+      if (!(R[j] == B[j])) cnt(NV_CHANGED)++;
     }
   }
 
@@ -194,7 +215,7 @@ struct Check {
       if (g_tail) {
         while (ex.mod.n() > 0) {
           ex.remove_last();
-          vf::stats().add("nv.tail_remove_last");
+          cnt(NV_TAIL)++;
           compare_barcode(ex, ":after_remove_last");
           after_boundary(ex, ":after_remove_last", true);
         }
@@ -273,10 +294,10 @@ struct Check {
           bad("ru:B_times_V_equals_R:zp", "column " + std::to_string(j) + " of B*V is " + vstr(acc) + " R column " + vstr(R[j]));
           break;
         }
-        for (int k = 0; k < j; ++k) if (S[j][k] > 1 && S[j][k] < p - 1) vf::stats().add("nv.zp_non_unit_coefficient");
+        for (int k = 0; k < j; ++k) if (S[j][k] > 1 && S[j][k] < p - 1) cnt(NV_NONUNIT)++;
       }
     }
-    if (offdiag) vf::stats().add("nv.ru_cases_with_offdiagonal_factor");
+    if (offdiag) cnt(NV_OFFDIAG)++;
   }
 
   // ---- chain ----
@@ -338,13 +359,15 @@ struct Check {
                                                      ") is " + vstr(C[partner[j]]));
       }
       int nz = 0;
-      for (int r = 0; r < n; ++r) if (C[j][r]) { ++nz; if (C[j][r] > 1 && C[j][r] < p - 1) vf::stats().add("nv.zp_non_unit_coefficient"); }
-      if (nz > 1) vf::stats().add("nv.chain_columns_with_several_cells");
+      for (int r = 0; r < n; ++r) if (C[j][r]) { ++nz; if (C[j][r] > 1 && C[j][r] < p - 1) cnt(NV_NONUNIT)++; }
+      if (nz > 1) cnt(NV_CHAINMULTI)++;
     }
   }
 
   void run_case(const Universe& U, int p, int idm, int ctor, const std::vector<int>& ops) {
     vf::set_case(case_string(cfg, U, p, idm, ctor, ops));
+    HistInfo hi = hist_info(ops);
+    g_cls_suffix = hi.empty_remove ? ":history_with_remove_last_on_empty_matrix" : "";
     long long c0 = comparisons;
     long long calls = 0;
     try {
@@ -353,24 +376,25 @@ struct Check {
       else if constexpr (O::flavour == F_RU) run_ru(ex, ops);
       else run_chain(ex, ops);
       calls = ex.calls;
+      phase("destructor");
     } catch (const std::out_of_range& e) {
-      bad("exception:" + fl + ":" + idx_name(O::column_indexation_type) + ":out_of_range", std::string("exception thrown: ") + e.what());
+      bad(crash_class(g_phase, "exception_out_of_range"), std::string("exception thrown: ") + e.what());
     } catch (const std::exception& e) {
-      bad("exception:" + fl + ":" + idx_name(O::column_indexation_type) + ":other", std::string("exception thrown: ") + e.what());
+      bad(crash_class(g_phase, "exception"), std::string("exception thrown: ") + e.what());
     }
+    phase("between_cases");
     vf::end_case();
-    auto& st = vf::stats();
-    st.add("ev.traces");
-    st.add("ev.states");
-    st.add("ev.transitions", calls);
-    st.add("ev.evaluations", comparisons - c0);
-    bool rem = false;
-    int ins = 0;
-    for (int c : ops) { if (c == OP_REMOVE) rem = true; else ++ins; }
-    if (rem || ins >= 3) st.add("ev.nontrivial");
-    if (rem) st.add("nv.histories_with_remove_last");
-    st.add(std::string("cases.") + fl + (O::is_z2 ? ".z2" : ".zp"));
-    st.maxi("max_history_length", (long long)ops.size());
+    cnt(EV_TRACES)++;
+    cnt(EV_TRANSITIONS) += calls;
+    cnt(EV_EVALUATIONS) += comparisons - c0;
+    if (hi.removes > 0 || hi.inserts >= 3) cnt(EV_NONTRIVIAL)++;
+    if (hi.removes > 0) cnt(NV_REMHIST)++;
+    if (hi.empty_remove) cnt(NV_EMPTYREM)++;
+    cnt(CASES_FIRST + O::flavour * 2 + (O::is_z2 ? 0 : 1))++;
+  }
+  // class of a death / exception: without the "C05:" prefix and suffix (added by bad())
+  std::string crash_class(const std::string& ph, const std::string& kind) {
+    return "crash:" + fl + ":" + idx_name(O::column_indexation_type) + ":" + ph + ":" + kind;
   }
 };
 
@@ -379,53 +403,86 @@ struct Tag { using type = T; };
 template <class F, class... Os>
 void for_each_config(List<Os...>, F&& f) { (f(Tag<Os>{}), ...); }
 
+struct PlanItem { std::string u; int max_ins, max_rem; };
+
 int main(int argc, char** argv) {
   vf::Args a = vf::parse_args(argc, argv);
   vf::install_handlers();
+  vf::g_case_timeout = 6;
+  shared_init();
   bool thorough = a.thorough();
   g_tail = a.geti("tail", 1) != 0;
+  double t0 = vf::now_s();
+  double budget = (double)a.geti("budget", thorough ? 2000 : 400);
+
+  auto finish = [&]() {
+    auto& st = vf::stats();
+    for (int i = 0; i < CASES_FIRST + 6; ++i) st.add(counter_names[i], cnt(i));
+    st.add("ev.states", cnt(EV_TRACES));  // every case is a distinct input (configuration, field, identifiers, call sequence)
+    st.add("ev.incomplete", g_sh->incomplete ? 1 : 0);
+    st.mismatches = cnt(MISMATCHES);
+    vf::finish();
+  };
 
   if (!a.replay.empty()) {
     auto kv = vf::parse_kv(a.replay);
     Universe U = make_universe(kv["u"]);
     int p = atoi(kv["p"].c_str()), idm = atoi(kv["idm"].c_str()), ctor = atoi(kv["ctor"].c_str());
-    std::vector<int> ops = parse_ops(kv["ops"]);
+    std::vector<int> ops = vf::parse_ints(kv["ops"]);
     bool found = false;
     for_each_config(Group{}, [&](auto tag) {
       using O = typename decltype(tag)::type;
       if (opt_name<O>() != kv["cfg"]) return;
       found = true;
       Check<O> c;
-      c.run_case(U, p, idm, ctor, ops);
+      HistInfo hi = hist_info(ops);
+      std::string suffix = hi.empty_remove ? ":history_with_remove_last_on_empty_matrix" : "";
+      run_isolated(
+          1, [&](size_t) { c.run_case(U, p, idm, ctor, ops); return true; },
+          [&](size_t) { return case_string(c.cfg, U, p, idm, ctor, ops); },
+          [&](const std::string& ph, const std::string& kind) { return "C05:" + c.crash_class(ph, kind) + suffix; }, EV_TRACES);
     });
     if (!found) fprintf(stderr, "configuration %s is not in this unit\n", kv["cfg"].c_str());
-    vf::finish();
+    finish();
     return found ? 0 : 2;
   }
 
-  std::vector<std::string> universes;
+  // plan: universe:max_insertions:max_remove_last, ...
+  std::vector<PlanItem> plan;
   {
-    std::string s = a.get("u", "tet"), cur;
-    for (char ch : s + ",") { if (ch == ',') { if (!cur.empty()) universes.push_back(cur); cur.clear(); } else cur += ch; }
+    std::string s = a.get("plan", thorough ? "tet:8:2,tri:7:4,square:9:2,strip:7:2,cw:7:3" : "tet:7:2,square:7:1,cw:7:2"), cur;
+    for (char ch : s + ",") {
+      if (ch != ',') { cur += ch; continue; }
+      if (cur.empty()) continue;
+      PlanItem it;
+      size_t c1 = cur.find(':'), c2 = cur.find(':', c1 + 1);
+      it.u = cur.substr(0, c1);
+      it.max_ins = atoi(cur.substr(c1 + 1, c2 - c1 - 1).c_str());
+      it.max_rem = atoi(cur.substr(c2 + 1).c_str());
+      plan.push_back(it);
+      cur.clear();
+    }
   }
-  HistoryBounds hb;
-  hb.max_ins = (int)a.geti("maxins", thorough ? 7 : 5);
-  hb.max_rem = (int)a.geti("maxrem", thorough ? 3 : 2);
-  hb.empty_remove = a.geti("emptyrem", 0) != 0;
+  bool empty_remove = a.geti("emptyrem", 1) != 0;
   std::vector<int> primes = vf::parse_ints(a.get("primes", thorough ? "2,3,5" : "2,3"));
-  // (idmode, ctor) combinations
-  std::vector<int> modes = vf::parse_ints(a.get("modes", thorough ? "00,11,20,31,01,10" : "00,11,20"));
-  double t0 = vf::now_s();
-  double budget = (double)a.geti("budget", thorough ? 1500 : 100);
+  // (idmode, ctor) combinations, written idmode*10+ctor
+  std::vector<int> modes = vf::parse_ints(a.get("modes", thorough ? "00,11,20,31,01,10,21" : "00,11,20"));
 
-  for (auto& un : universes) {
-    Universe U = make_universe(un);
+  for (auto& item : plan) {
+    Universe U = make_universe(item.u);
+    HistoryBounds hb;
+    hb.max_ins = item.max_ins;
+    hb.max_rem = item.max_rem;
+    hb.empty_remove = empty_remove;
     for (int p : primes) {
       long long raw = 0;
       auto H = enumerate_histories(U, hb, p, &raw);
       vf::stats().add("histories_enumerated_raw", raw);
       vf::stats().add("histories_distinct_call_sequences", (long long)H.size());
-      if (H.size() > 3) vf::stats().sample(case_string("*", U, p, 0, 0, H[H.size() / 2]));
+      vf::stats().maxi("max_history_length", (long long)(hb.max_ins + hb.max_rem));
+      if (H.size() > 3) vf::stats().sample(case_string("(every configuration of the unit)", U, p, 0, 0, H[H.size() / 2]), 8);
+      std::vector<HistInfo> info;
+      for (auto& h : H) info.push_back(hist_info(h));
       for_each_config(Group{}, [&](auto tag) {
         using O = typename decltype(tag)::type;
         if (O::is_z2 && p != 2) return;
@@ -433,19 +490,36 @@ int main(int argc, char** argv) {
         vf::stats().distinct("configs", c.cfg);
         for (int mc : modes) {
           int idm = mc / 10, ctor = mc % 10;
+          std::vector<size_t> sel;
           for (size_t i = 0; i < H.size(); ++i) {
             if ((int)(i % (size_t)a.nshards) != a.shard) continue;
-            bool has_rem = false;
-            for (int op : H[i]) if (op == OP_REMOVE) has_rem = true;
-            if (has_rem && !Exec<O>::CAN_REMOVE) continue;
-            if (vf::now_s() - t0 > budget) { vf::stats().add("ev.incomplete"); return; }
-            c.run_case(U, p, idm, ctor, H[i]);
+            if (info[i].removes > 0 && !Exec<O>::CAN_REMOVE) continue;
+            // default identifiers after a removal: the documentation is ambiguous (position vs insertion count), not generated
+            if (idm == 0 && info[i].insert_after_remove) continue;
+            sel.push_back(i);
+          }
+          size_t left = run_isolated(
+              sel.size(),
+              [&](size_t k) {
+                if (vf::now_s() - t0 > budget) return false;
+                c.run_case(U, p, idm, ctor, H[sel[k]]);
+                return true;
+              },
+              [&](size_t k) { return case_string(c.cfg, U, p, idm, ctor, H[sel[k]]); },
+              [&](const std::string& ph, const std::string& kind) {
+                return "C05:" + c.crash_class(ph, kind) +
+                       (info[sel[g_sh->cur]].empty_remove ? ":history_with_remove_last_on_empty_matrix" : "");
+              },
+              EV_TRACES);
+          if (left) {
+            vf::stats().add("cases_not_executed_after_repeated_deaths", (long long)left);
+            vf::stats().add("blocks_abandoned_after_repeated_deaths");
+            g_sh->incomplete = 1;
           }
         }
       });
     }
   }
-  vf::stats().add("ev.incomplete", 0);
-  vf::finish();
+  finish();
   return 0;
 }
